@@ -12,7 +12,7 @@
      any other media type nothing (and the content is not even fetched) *)
 From Coq Require Import List NArith Bool.
 Import ListNotations.
-From Oras Require Import Model.GraphMem.
+From Oras Require Import Base.Prelude Generated.GC07 Model.GraphMem.
 
 Inductive mkind := KDockerManifest | KImageManifest | KDockerList | KImageIndex | KArtifact | KOther.
 Record mdoc := mkDoc {
@@ -20,7 +20,40 @@ Record mdoc := mkDoc {
   d_layers : list node; d_manifests : list node; d_blobs : list node }.
 
 Definition opt_list (o : option node) : list node := match o with Some x => [x] | None => [] end.
+
+(* The executable model is an interpreter of the schema that tools/gosrc2v (kind
+   "linkschema") re-reads from the switch in content.Successors on every run:
+   Generated.GC07.successors_schema lists, per media type constant, the document members
+   returned ("F" one descriptor, "F*" a slice, "F?" a pointer when not nil), in order. *)
+Definition kind_name (k : mkind) : option str :=
+  match k with
+  | KDockerManifest => Some (b "docker.MediaTypeManifest")
+  | KImageManifest => Some (b "ocispec.MediaTypeImageManifest")
+  | KDockerList => Some (b "docker.MediaTypeManifestList")
+  | KImageIndex => Some (b "ocispec.MediaTypeImageIndex")
+  | KArtifact => Some (b "spec.MediaTypeArtifactManifest")
+  | KOther => None
+  end.
+Fixpoint slookup (k : str) (l : list (str * list str)) : option (list str) :=
+  match l with [] => None | (k', v) :: r => if str_eqb k k' then Some v else slookup k r end.
+Definition item_nodes (m : mdoc) (it : str) : list node :=
+  if str_eqb it (b "Subject?") then opt_list (d_subject m)
+  else if str_eqb it (b "Config") then [d_config m]
+  else if str_eqb it (b "Layers*") then d_layers m
+  else if str_eqb it (b "Manifests*") then d_manifests m
+  else if str_eqb it (b "Blobs*") then d_blobs m
+  else [].
 Definition successors_of (m : mdoc) : list node :=
+  match kind_name (d_kind m) with
+  | None => []
+  | Some k => match slookup k successors_schema with
+              | Some items => flat_map (item_nodes m) items
+              | None => []
+              end
+  end.
+
+(* the same, written out by hand (what the schema is expected to say) *)
+Definition successors_spec (m : mdoc) : list node :=
   match d_kind m with
   | KDockerManifest => d_config m :: d_layers m
   | KImageManifest => opt_list (d_subject m) ++ d_config m :: d_layers m
